@@ -91,6 +91,7 @@ class Discipline:
     def __init__(self) -> None:
         self.violations: list[str] = []
         self.mutations = 0
+        self.removed: list[typing.Any] = []  # connections taken out of the pool (evicted / expired / closed)
 
 
 class GuardedList(list):  # type: ignore[type-arg]
@@ -122,6 +123,8 @@ class GuardedList(list):  # type: ignore[type-arg]
     def remove(self, x: typing.Any) -> None:
         self._chk("remove")
         super().remove(x)
+        if self._pool is not None and self._what == "_connections":
+            self._pool._discipline.removed.append(x)
 
     def insert(self, i: typing.Any, x: typing.Any) -> None:
         self._chk("insert")
